@@ -4,6 +4,7 @@ import (
 	"bytes"
 	"fmt"
 	"os"
+	"path/filepath"
 	"sort"
 	"strings"
 
@@ -88,9 +89,19 @@ func doPackWith(p *slug.Packer, src string) packObs {
 }
 
 // freshDir removes and recreates a directory.
+var staleCounter int
+
 func freshDir(p string) error {
 	fixTreePerms(p)
 	os.RemoveAll(p)
+	if _, err := os.Lstat(p); err == nil {
+		// whatever a (mutated) library left there could not be removed:
+		// move it out of the way rather than let every following case of
+		// this worker end inconclusive
+		os.Chmod(filepath.Dir(p), 0755)
+		staleCounter++
+		os.Rename(p, fmt.Sprintf("%s.stale.%d", p, staleCounter))
+	}
 	return os.MkdirAll(p, 0755)
 }
 
